@@ -26,7 +26,7 @@ func (c19) ID() string { return "C19" }
 func (c19) Meta(tier string) engine.Meta {
 	return engine.Meta{
 		Level: "model_checking",
-		Rule: "all accepted single-line programs of depth <= 2 with one nested operand (thorough: full depth 2) over the debug alphabet — ASCII and non-ASCII identifiers and strings (incl. strings that render on several lines), numbers, members, subscripts (also failing ones), method calls, infix / prefix operators, conditionals and short-circuit operators with unevaluated branches — in raw and host-map environments, plus 23 hand-built three-level programs (incl. objects whose rendering spans several lines next to wide values). Oracle: Debug returns the value / failure of normal evaluation (VM and closure back ends, and the reference); the record, read through the build-tag hook before rendering, equals the reference evaluator's list of (value, column) for exactly the evaluated variable / call / member / subscript terms in completion order, each at its own term's column (identifier start, '(' of a call, '.' of a member, '[' of a subscript, the operator token, '?'); rendering does not fail, keeps the source as first line, and shows every recorded value at its column on some later line. non-trivial = programs with at least two recorded terms",
+		Rule: "all accepted single-line programs of depth <= 2 with one nested operand (thorough: full depth 2) over the debug alphabet — ASCII and non-ASCII identifiers and strings (incl. strings that render on several lines), numbers, members, subscripts (also failing ones), method calls, list functions over a recorded list variable, infix / prefix operators, conditionals and short-circuit operators with unevaluated branches — in raw and host-map environments, plus 23 hand-built three-level programs (incl. objects whose rendering spans several lines next to wide values). Oracle: Debug returns the value / failure of normal evaluation (VM and closure back ends, and the reference); the record, read through the build-tag hook before rendering, equals the reference evaluator's list of (value, column) for exactly the evaluated variable / call / member / subscript terms in completion order, each at its own term's column (identifier start, '(' of a call, '.' of a member, '[' of a subscript, the operator token, '?'); rendering does not fail, keeps the source as first line, and shows every recorded value at its column on some later line. non-trivial = programs with at least two recorded terms",
 		Bound: "depth 2 (one nested operand); 7 variables",
 		Assumptions: []string{"no function that evaluates one operand twice is used (the record then shifts columns by design)"},
 	}
@@ -67,6 +67,10 @@ func debugGrammar() *gen.Grammar {
 	fn(g, "if", N, B, N, N)
 	g.Prod("?:", N, []*gen.Ty{B, N, N}, func(x []*gen.Term) *gen.Term { return gen.Ternary(x[0], x[1], x[2]) })
 	fn(g, "max", N, N, N)
+	// functions over a recorded list variable (the record must keep the value the variable HAD)
+	fn(g, "max", N, tyLNum)
+	fn(g, "min", N, tyLNum)
+	fn(g, "len", N, tyLNum)
 	g.Prod("m-get", N, []*gen.Ty{tyLNum, N, N}, func(x []*gen.Term) *gen.Term { return gen.Method("get", x[0], x[1], x[2]) })
 	bin(g, "==", N, N, B)
 	bin(g, "<", N, N, B)
